@@ -667,7 +667,8 @@ def gen_scalar_value(rng, k: str, cfg: Cfg):
         return {"$uuid": "%032x" % rng.getrandbits(128)} if rng.random() < 0.8 else {"$uuid": rng.choice(["0" * 32, "f" * 32, "00000000000000000000000000000001"])}
     if k in ("ppath", "purepath", "path"):
         cls = {"ppath": "PurePosixPath", "purepath": "PurePath", "path": "Path"}[k]
-        return {"$path": [cls, rng.choice(["a/b", "/abs/x", ".", "a", "rel/../x", "/", "dir/file.txt", "x y/z", "1", "null", "a.b"])]}
+        return {"$path": [cls, rng.choice(["a/b", "/abs/x", ".", "a", "rel/../x", "/", "dir/file.txt", "x y/z", "1", "null", "a.b",
+                                            "donn\u00e9es/caf\u00e9.txt", "/srv/\u65e5\u672c/x", "na\u00efve"])]}
     if k == "pat":
         return {"$re": rng.choice(["a+", "^x$", "[0-9]{2}", "", "\\d+", "(a|b)*", ".", "1", "null"])}
     if k == "date":
